@@ -66,6 +66,53 @@ def run_driver_parallel(exe, cases_path, out_path, parts=12):
             os.remove(ci); os.remove(co)
 
 
+def compare_db(w):
+    """C07 above the storage layer: the extracted load_outcome on the record store of each damaged file whose storage
+    layer opened, against DbFile::new (outcome class of the open: exact) and, when the model loads the whole database,
+    the ordered dump of the opened real database."""
+    cases, model, impl, desc = (read_lines(os.path.join(w, f)) for f in ("cases_db.txt", "model_db.txt", "impl_db.txt", "desc_db.txt"))
+    stats, dis = {}, []
+
+    def bump(k):
+        stats[k] = stats.get(k, 0) + 1
+
+    def parts(line):
+        o, _, r = line.partition(" read=")
+        return o.replace("open=", "", 1), r
+
+    if not (len(cases) == len(model) == len(impl) == len(desc)):
+        dis.append(dict(what="database-level correspondence: line counts differ", case="", model=str(len(model)), impl=str(len(impl)), cls="db-load-line-count"))
+        return dis, stats
+    for c, m, x, d in zip(cases, model, impl, desc):
+        mo, mr = parts(m)
+        xo, xr = parts(x)
+        if mo == "legacy":
+            bump("open:legacy-conversion-not-compared")
+            continue
+        ok = ((mo == "opens" and xo == "opens") or (mo == "error" and xo == "error")
+              or (mo == "panic" and xo == "panic-db_value-explicit-panic") or (mo == "alloc" and xo.startswith("alloc-"))
+              # no root record: the code CREATES a database in this storage (write path on a damaged storage: not a load, not modelled
+              # further): it must end without a crash
+              or (mo == "fresh" and xo in ("opens", "error")))
+        if not ok:
+            dis.append(dict(what="DbFile::new on a damaged file whose storage layer opens vs load_outcome on its record store", case=d[:3000],
+                            model=m[:300], impl=x[:300], cls="db-open-%s-vs-%s" % (mo, "-".join(xo.split("-")[:3]))))
+            continue
+        bump("open:" + mo)
+        if mo != "opens":
+            continue
+        if mr.startswith("db "):
+            if xr == mr:
+                bump("read:loaded-same-dump")
+            else:
+                # the real database is read LAZILY through the query layer (hash probing, searches, only the Valid slots of a table),
+                # the model reads every component to the end: on a damaged store the two need not see the same; counted, not demanded
+                bump("read:loaded-real-" + ("other-dump" if xr.startswith("db ") else xr.split(" ")[0].split(":")[0]))
+        else:
+            bump("read:model-%s-real-%s" % (mr, xr.split(" ")[0].split(":")[0]))
+    return dis, stats
+
+
 def run(ctx):
     exe, dlog = vlib.build_driver()
     if exe is None:
